@@ -235,6 +235,20 @@ func GoodSubSliceIndex(xs []int, a, b int) int {
 	return t
 }
 
+// ---- append-style helper whose result is dropped -------------------------------
+
+func appendTwice(dst []int, v int) []int { return append(dst, v, v) }
+
+func BadAppendResultDropped(xs []int) []int {
+	appendTwice(xs, 1)
+	return xs
+}
+
+func GoodAppendResultUsed(xs []int) []int {
+	xs = appendTwice(xs, 1)
+	return xs
+}
+
 // ---- E5 provenance ---------------------------------------------------------
 
 type Bits struct{ w []uint64 }
